@@ -306,3 +306,34 @@ def v5w(ctx):
 
 
 RULES.append(v5w)
+
+
+@rule("V9", doc="the slots of one e-node are declared pairwise distinct, all of them (also redundant and bound ones), per e-node")
+def v9(ctx):
+    crate = ctx.lib()
+    MS = "rewrite::multipat::MultiState"
+    adders = [b for b in crate.fns() if any(k == "mutborrow" for wid, v in crate.field_writers(MS, "diseq_constraints").items() if wid == b.id for (_, _, k, _) in v)
+              and not any(k == "store" for wid, v in crate.field_writers(MS, "diseq_constraints").items() if wid == b.id for (_, _, k, _) in v)]
+    C.need("constraint adder (mutably borrows MultiState.diseq_constraints)", [b.id for b in adders])
+    n = 0
+    for ad in adders:
+        for caller in crate.fns():
+            for c in C.calls_to(crate, caller, {ad.id}):
+                n += 1
+                r = c.body.role_of_operand(c.args[0])
+                ok = role_mentions_call(r, "all_slot_occurrences") and role_mentions_call(r, "enodes_applied")
+                if not ok:
+                    # the set may be filled element by element: fall back to (flow-insensitive) value dependence
+                    at = crate.deps(crate.root_of(c.body)).atoms_of_operand(c.body, c.args[0])
+                    ok = bool(mir.atoms_calls(at, "all_slot_occurrences")) and bool(mir.atoms_calls(at, "enodes_applied"))
+                ctx.check(ok, "constraint-covers-all-occurrences:" + C.fkey(caller), "the disjointness constraint is built from all_slot_occurrences() of each e-node handed out by enodes_applied",
+                          "%s builds the disjointness constraint from %s instead of all slot occurrences of the e-node: redundant / bound slots get fresh, flexible names from enodes_applied and only this constraint keeps two different ones from being unified — the matcher then reports a substitution whose instance is not in the e-graph" % (C.short(caller.id), role_str(r)[:100]),
+                          where_of(c.body, c.bb))
+                # inside the per-node loop
+                lp = [l for l in C.iterator_loops(c.body) if role_mentions_call(l[1], "enodes_applied")]
+                inl = bool(lp) and c.bb in c.body.reach(lp[0][3], avoid=lp[0][2])
+                ctx.check(inl, "constraint-per-enode:" + C.fkey(caller), "the constraint is added once per e-node (inside the e-node loop)", "the disjointness constraint is not added per e-node", where_of(c.body, c.bb))
+    ctx.floor("disjointness-constraint call sites", n, 1)
+
+
+RULES.append(v9)
